@@ -164,7 +164,9 @@ RULE_C01 = ("cases = (layout, sequence of message lengths): layouts from the gen
             "non-trivial when at least one write reached the read-back oracles.  Layout class 'adjacent': a control "
             "TLV reserves a range that starts directly behind the length field of the stored NDEF TLV (offset + 2 with "
             "a stored message < 255 bytes, offset + 4 otherwise; generic and product images); lengths whose length "
-            "field would cover reserved bytes are outside the quantifier and not generated.  Class 'failed attempt(s), "
+            "field would cover reserved bytes are outside the quantifier and not generated.  Layout class 'end zone': "
+            "a control TLV declares a range that starts within the last 16 / 8 / 4 bytes of the data area (ending "
+            "exactly at its end, starting exactly at end - 16, inside, across the end).  Class 'failed attempt(s), "
             "then a COMPLETED retry on the same object, then a fresh reader' (the assignment that is judged is a "
             "fault-free `ndef.octets = x` that returns normally; what extends the quantifier is the state of the tag "
             "object: 1 or 2 earlier attempts of `octets = new` on it ended with TagCommandError because every exchange "
@@ -175,7 +177,8 @@ RULE_C01 = ("cases = (layout, sequence of message lengths): layouts from the gen
             "then the reference reader and a fresh nfcpy activation must read exactly x")
 REQUIRED_C01 = ["t2t_roundtrips", "t2t_capacity_checked", "t2t_oversize_rejected", "t2t_ref_reader_checked",
                 "t2t_layout_sector-straddle", "t2t_layout_adjacent-len1", "t2t_layout_adjacent-len3",
-                "t2t_layout_adjacent-product",
+                "t2t_layout_adjacent-product", "t2t_layout_end-zone-16", "t2t_layout_end-zone-8",
+                "t2t_layout_end-zone-4", "t2t_layout_end-zone-ends-at-end", "t2t_layout_end-zone-starts-at-end-16",
                 "t2t_c01_retry_cases", "t2t_c01_retry_roundtrips", "t2t_c01_retry_ref_reader_checked",
                 "t2t_c01_retry_fault_at_message_write", "t2t_c01_retry_fault_at_length_zero_write",
                 "t2t_c01_retry_fault_at_last_write", "t2t_c01_retry_empty_final_message",
@@ -225,6 +228,9 @@ def run_c01(desc, R, rng):
             elif rng.random() < 0.06:
                 # a reserved range directly behind the length field of the stored NDEF TLV
                 lay = L.gen_layout(rng, adjacent=True)
+            elif rng.random() < 0.05:
+                # a declared range within the last 16 / 8 / 4 bytes of the data area
+                lay = L.gen_layout(rng, end_zone=True)
             else:
                 near_end = rng.random() < 0.06
                 lay = L.gen_layout(rng, near_end=near_end)
@@ -938,8 +944,23 @@ RULE_C03 = ("cases = (layout, operation sequence): layouts as for C01 with empha
             "window across byte 1024 / changed tail in sector 1 / all new; j = every SECTOR SELECT packet 1 and packet "
             "2 and their neighbours, first and last commands, random others; every j for short sequences), tags with "
             "a reserved range across the sector boundary (vf.ref.t2_layout.straddle_layout).  A lost packet 2 is the "
-            "'frame never reached the tag' reading only (see ASSUMPTIONS)")
-REQUIRED_C03 = ["t2t_c03_ops_write", "t2t_c03_ops_format", "t2t_c03_ops_format_wipe", "t2t_c03_bytes_diffed",
+            "'frame never reached the tag' reading only (see ASSUMPTIONS).  Layout class 'end zone': a lock-control "
+            "or memory-control TLV declares a range that starts within the last 16 / 8 / 4 bytes of the data area "
+            "(ending exactly at the end of the data area, starting exactly at end - 16 / - 8 / - 4, inside, running "
+            "across the end).  Operation 'write_rel' (all layouts, half of the operations on end-zone layouts): "
+            "octets=<capacity the reader REPORTS + d octets>, d = -2..+2 - the setter's capacity check is the only guard "
+            "in front of the placement loop, so the lengths are drawn relative to what nfcpy reports, not to the "
+            "reference capacity; a refused length (ValueError) is a normal outcome, an accepted one is judged like "
+            "every write (memory diff + WRITE addresses); reported vs reference capacity is counted, not judged (C01)")
+REQUIRED_C03 = ["t2t_c03_write_rel_at_reported_capacity", "t2t_c03_write_rel_below_reported_capacity",
+                "t2t_c03_write_rel_above_reported_refused", "t2t_c03_reported_capacity_equals_reference",
+                "t2t_c03_endzone_16_write_rel_at_reported_capacity", "t2t_c03_endzone_8_write_rel_at_reported_capacity",
+                "t2t_c03_endzone_4_write_rel_at_reported_capacity",
+                "t2t_c03_endzone_ends_at_end_write_rel_at_reported_capacity",
+                "t2t_c03_endzone_starts_at_end_16_write_rel_at_reported_capacity",
+                "t2t_c03_endzone_crosses_end_write_rel_at_reported_capacity",
+                "t2t_c03_endzone_16_format_wipe", "t2t_c03_endzone_4_format_wipe",
+                "t2t_c03_ops_write", "t2t_c03_ops_format", "t2t_c03_ops_format_wipe", "t2t_c03_bytes_diffed",
                 "t2t_c03_write_cmds_checked", "t2t_c03_reserved_adjacent_to_message",
                 "t2t_c03_retry_ops", "t2t_c03_retry_attempt_failed_then_retry_returned",
                 "t2t_c03_retry_fault_at_sector_select_packet_1", "t2t_c03_retry_fault_at_sector_select_packet_2",
@@ -979,7 +1000,28 @@ def _c03_sequence(case):
     return [cmd for n, cmd, _rsp in dev.log if n >= c0]
 
 
+def _c03_rel_data(n, salt):
+    """n message octets, none of them zero (a byte written where a zero is stored always shows in the diff)"""
+    return bytes((salt + 13 * i) % 255 + 1 for i in range(n))
+
+
 def _c03_do(tag, name, arg):
+    if name == "write_rel":
+        # arg = [d, salt]: a message of <capacity the reader REPORTS> + d octets; one longer than the reported capacity
+        # is expected to be refused (ValueError), which is a normal outcome of this operation
+        nd = tag.ndef
+        if nd is None:
+            return "no-ndef"
+        n = nd.capacity + int(arg[0])
+        if n < 0:
+            return "skipped"
+        try:
+            nd.octets = _c03_rel_data(n, int(arg[1]))
+        except ValueError:
+            if n > nd.capacity:
+                return "refused"
+            raise
+        return "written"
     if name == "write":
         nd = tag.ndef
         if nd is None:
@@ -1089,6 +1131,10 @@ def run_c03(desc, R, rng):
                     lay = L.gen_layout(rng, cc2=cc2, near_end=True)
             elif rng.random() < 0.15:
                 lay = L.gen_layout(rng, adjacent=True, old_len=rng.choice([None, None, 0]))
+            elif rng.random() < 0.16:
+                # a declared range within the last 16 / 8 / 4 bytes of the data area (ending exactly at the end,
+                # starting exactly at end - 16, inside, across the end)
+                lay = L.gen_layout(rng, end_zone=True, trailing=rng.choice([4, 4, 8, 16, 20, 32, 0]))
             else:
                 lay = L.gen_layout(rng)
             mem = lay.mem
@@ -1097,8 +1143,13 @@ def run_c03(desc, R, rng):
         if r.status == "ndef":
             cap = L.ref_capacity(r.ndef_off, r.data_end, r.reserved)
             adjacent = r.ndef_off + (2 if len(r.message) < 255 else 4) in r.reserved
+            p_rel = 0.5 if L.end_zone_classes(r) else 0.12
             for _j in range(rng.choice([1, 2, 3])):
                 x = rng.random()
+                if rng.random() < p_rel and not (adjacent and cap >= 255):
+                    # length relative to the capacity the reader REPORTS (whatever the reference capacity is)
+                    ops.append(["write_rel", [rng.choice([0, 0, 0, -1, -2, 1, 1, 2]), rng.randrange(256)]])
+                    continue
                 if adjacent and cap >= 255 and x < 0.06 and L.length_field_on_reserved(r.ndef_off, r.reserved, 255):
                     # outside the quantifier (the new length field lies on reserved bytes): observed, not judged
                     ops.append(["write", rnd_bytes(rng, rng.choice([255, cap]))])
@@ -1153,11 +1204,23 @@ def c03_case(case, R):
     for oi, op in enumerate(case["ops"]):
         name, arg = op[0], op[1]
         faults = [(int(j), str(f)) for j, f in op[2]] if len(op) > 2 and op[2] else []
+        rel = None
+        if name == "write_rel":
+            # length relative to the capacity the reader reports for the tag as it is now (the NDEF data is read first;
+            # a read changes nothing); from here on it is an ordinary write of that many octets
+            st, nd = guard(lambda: tag.ndef)
+            repcap = nd.capacity if st == "ok" and nd is not None else None
+            if repcap is None or repcap + int(arg[0]) < 0:
+                R.count("t2t_c03_write_rel_not_applicable")
+                continue
+            rel = (int(arg[0]), repcap)
+            name, arg = "write", _c03_rel_data(repcap + rel[0], int(arg[1]))
         before = bytes(model.mem)
         refb = L.ref_read(before)
         model.clear_logs()
         wit = dict(case)
         wit["ops"] = case["ops"][:oi + 1]
+        ncmd0 = dev.n_commands
 
         def do():
             return _c03_do(tag, name, arg)
@@ -1215,6 +1278,32 @@ def c03_case(case, R):
             # a raising operation is judged by C01/C16; the memory rule still holds for what it did before raising
             R.count("t2t_c03_op_raised")
             R.seen("t2t_c03_op_exceptions", opname + ":" + exc_sig(res))
+        zones = L.end_zone_classes(refb) if refb.status == "ndef" else set()
+        if rel is not None:
+            # class "length relative to the REPORTED capacity": the capacity check of the octets setter is the only
+            # guard in front of the placement loop, so a capacity reported too large shows as a write behind the data
+            # area exactly here.  Whether a refusal comes in time / the capacity is right is C01's clause: counted only
+            d, repcap = rel
+            refcap = L.ref_capacity(refb.ndef_off, refb.data_end, refb.reserved) if refb.status == "ndef" else None
+            if refcap is not None:
+                R.count("t2t_c03_reported_capacity_%s_reference" % (
+                    "equals" if repcap == refcap else "below" if repcap < refcap else "ABOVE"))
+            if d > 0:
+                if st == "exc" and isinstance(res, ValueError) and dev.n_commands == ncmd0:
+                    what = "above_reported_refused"
+                elif st == "exc" and isinstance(res, ValueError):
+                    what = "above_reported_refused_after_commands"
+                else:
+                    what = "above_reported_not_refused"
+            elif st == "ok":
+                what = "at_reported_capacity" if d == 0 else "below_reported_capacity"
+            else:
+                what = "raised"
+            R.count("t2t_c03_write_rel_" + what)
+            for z in zones:
+                R.count("t2t_c03_endzone_%s_write_rel_%s" % (z, what))
+        for z in zones:
+            R.count("t2t_c03_endzone_%s_%s" % (z, opname.replace("-", "_")))
         after = bytes(model.mem)
         # allowed set
         if refb.status == "ndef":
@@ -1302,9 +1391,10 @@ def c03_case(case, R):
                     R.count("t2t_c03_adjacent_format_%s" % ("product" if kind in S.PRODUCTS else "generic"))
         if changed or model.write_cmds:
             reached = True
-    R.case(bytes(case["mem"]) + repr([(o[0], o[1] if o[0] == "format" else len(o[1]), o[2:]) for o in case["ops"]]).encode(),
+    R.case(bytes(case["mem"]) + repr([(o[0], o[1] if o[0] in ("format", "write_rel") else len(o[1]), o[2:])
+                                       for o in case["ops"]]).encode(),
            nontrivial=reached)
-    R.sample({"kind": kind, "ops": [(o[0], o[1] if o[0] == "format" else len(o[1])) for o in case["ops"]]})
+    R.sample({"kind": kind, "ops": [(o[0], o[1] if o[0] in ("format", "write_rel") else len(o[1])) for o in case["ops"]]})
 
 
 # =====================================================================================================================
@@ -1939,7 +2029,19 @@ RULE_C16 = ("cases = (personality, operation, command position p, error kind, bu
             "every step by the clauses that do not depend on repetition: nothing but TagCommandError reaches the "
             "application; a step that returns normally returns the fault-free result of that step or the documented "
             "failure value (only when the tag memory at the start of the step equals the fault-free one), and with "
-            "the fault-free result the memory after the step is the fault-free one")
+            "the fault-free result the memory after the step is the fault-free one.  Class 'recovery' (single-sector "
+            "personalities; sessions of 4-5 operations on one tag object): op1 (ndef.octets=, format(wipe), format) "
+            "fails PERSISTENTLY at one of its WRITE commands (every one; quick tier with more than 10 WRITEs: first, "
+            "second, last, three random ones; "
+            "burst 3 / 4 of each error kind; command never reaches the tag / executed and the acknowledge lost; plus "
+            "one burst within the budget), op2 is the application's repetition of op1 on a healthy link, op3.. are "
+            "further operations on a healthy link (ndef.octets=<other data>, format(wipe), format, protect, "
+            "has_changed, ndef read).  Oracle over EVERY session step (all session classes, single-sector tags), "
+            "differential against the fault-free session of the same operations: a step must not send more WRITE "
+            "commands that repeat - same page, same data, no other WRITE of the page sent in between - the last "
+            "WRITE of that page the tag acknowledged than the same step of the fault-free session ('a command that was "
+            "answered is not sent again'); observed, not judged: whether a later step that starts from the fault-free "
+            "memory sends exactly the fault-free command sequence and returns the fault-free result")
 REQUIRED_C16 = ["t2t_c16_cells", "t2t_c16_within_budget_same_result", "t2t_c16_persistent_tagcommanderror",
                 "t2t_c16_persistent_documented_result", "t2t_c16_answered_sequences_compared",
                 "t2t_c16_normal_returns_judged", "t2t_c16_sector_select_p1_cells", "t2t_c16_sector_select_p2_cells",
@@ -1950,7 +2052,14 @@ REQUIRED_C16 = ["t2t_c16_cells", "t2t_c16_within_budget_same_result", "t2t_c16_p
                 "t2t_c16_session_ops_after_failed_activation_tagcommanderror",
                 "t2t_c16_session_ops_after_failed_activation_documented_result",
                 "t2t_c16_session_ops_after_the_faulted_op", "t2t_c16_session_later_op_same_result_same_memory",
-                "t2t_c16_session_two_faults_hit"]
+                "t2t_c16_session_two_faults_hit", "t2t_c16_session_write_resend_steps_checked",
+                "t2t_c16_recover_cells", "t2t_c16_recover_first_op_failed_at_write",
+                "t2t_c16_recover_first_op_ndef_write", "t2t_c16_recover_first_op_format_wipe",
+                "t2t_c16_recover_unacknowledged_write_executed", "t2t_c16_recover_first_op_survived_burst",
+                "t2t_c16_recover_repetition_returned_reference_result", "t2t_c16_recover_later_ops_judged",
+                "t2t_c16_recover_later_op_protect", "t2t_c16_recover_later_op_ndef_write2",
+                "t2t_c16_recover_later_op_format_wipe", "t2t_c16_recover_later_op_format",
+                "t2t_c16_recover_later_op_same_command_sequence"]
 C16_MULTI_SECTOR = ("i2c2k", "generic2k")
 
 C16_KINDS = {"timeout": ("TimeoutError", 0), "transmission": ("TransmissionError", -1), "protocol": ("ProtocolError", -2)}
@@ -1963,9 +2072,12 @@ def plan_c16(tier):
     sessions = [["generic", "ul", "ntag203", "generic2k"], ["ulc", "ntag213", "ul11", "i2c2k", "ntag216"]]
     if tier == "quick":
         return ([{"kinds": g, "all_positions": i < 2} for i, g in enumerate(groups)] +
-                [{"mode": "sessions", "kinds": g} for g in sessions])
+                [{"mode": "sessions", "kinds": g} for g in sessions] +
+                [{"mode": "recover", "kinds": ["generic", "ul", "ulc", "ntag203", "ntag213", "ul11", "ntag216"]}])
     return ([{"kinds": g, "all_positions": True, "timeout": 3000} for g in groups] +
-            [{"mode": "sessions", "kinds": g, "timeout": 3000} for g in sessions])
+            [{"mode": "sessions", "kinds": g, "timeout": 3000} for g in sessions] +
+            [{"mode": "recover", "kinds": g, "timeout": 3000} for g in (["generic", "ul", "ulc", "ntag203"],
+                                                                        ["ntag213", "ul11", "ntag216"])])
 
 
 def _c16_ops(kind):
@@ -2027,6 +2139,8 @@ def run_c16(desc, R, rng):
     vclock.patch([nfc.tag.tt2])
     if desc.get("mode") == "sessions":
         return _run_c16_sessions(desc, R, rng)
+    if desc.get("mode") == "recover":
+        return _run_c16_recover(desc, R, rng)
     for kind in desc["kinds"]:
         for op in _c16_ops(kind):
             base = {"family": FAM, "kind": kind, "op": op, "mem": _c16_image(rng, kind, op)}
@@ -2096,6 +2210,9 @@ def _c16_do(case, tag, nd, op):
         return None if n is None else n.octets
     if op == "ndef_write":
         nd.octets = data
+        return "written"
+    if op == "ndef_write2":
+        nd.octets = bytes(case.get("data2", b""))
         return "written"
     if op == "has_changed":
         return [nd.has_changed, tag.ndef is None]
@@ -2447,7 +2564,15 @@ def _c16_judge(case, ref, run, R, cell):
 C16_SESSION_FOLLOW = ["is_present", "read", "write", "has_changed", "dump", "ndef_write", "ndef_read", "format",
                       "read_beyond", "is_present"]
 C16_SENSE_HOW = ("timeout", "transmission", "protocol", "none")
-C16_CACHED_OPS = ("ndef_read", "ndef_write", "has_changed", "format")
+C16_CACHED_OPS = ("ndef_read", "ndef_write", "ndef_write2", "has_changed", "format", "format_wipe", "protect")
+# class "recovery": op1 fails persistently at one of its WRITE commands, op2 is the application's repetition of op1 on a
+# healthy link, op3.. are further operations of the same tag object on a healthy link
+C16_RECOVER_SEQS = [["ndef_write", "ndef_write", "ndef_write2", "protect"],
+                    ["ndef_write", "ndef_write", "protect", "ndef_read"],
+                    ["ndef_write", "ndef_write", "format_wipe", "ndef_write2", "protect"],
+                    ["format_wipe", "format_wipe", "ndef_write", "ndef_write2", "format"],
+                    ["ndef_write", "ndef_write", "has_changed", "format", "ndef_write2"],
+                    ["format", "format", "ndef_write", "protect"]]
 
 
 def _c16_session_execute(case, faults):
@@ -2516,6 +2641,7 @@ def _c16_session_execute(case, faults):
         else:
             outcome = ["exc", type(v).__name__, None, exc_sig(v), exc_text(v)]
         steps.append({"op": op, "outcome": outcome, "mem0": mem0, "mem1": bytes(model.mem), "ncmd": len(dev.log) - log0,
+                      "log": [(c, r) for _n, c, r in dev.log[log0:]],
                       "senses": box["senses"] - s0, "hits": box["sense_hits"] + box["cmd_hits"] - h0,
                       "reactivation_failed_before": lost0 > 0})
     return {"steps": steps, "box": box}
@@ -2590,6 +2716,150 @@ def _run_c16_sessions(desc, R, rng):
                     _c16_session_run(dict(base, faults=faults), ref, R)
 
 
+def _run_c16_recover(desc, R, rng):
+    quick = desc["tier"] == "quick"
+    errs = sorted(C16_KINDS)
+    for kind in desc["kinds"]:
+        for si, ops in enumerate(C16_RECOVER_SEQS):
+            base = {"family": FAM, "kind": kind, "session": True, "recover": True, "ops": list(ops),
+                    "mem": _c16_image(rng, kind, "session")}
+            r = L.ref_read(base["mem"])
+            cap = L.ref_capacity(r.ndef_off, r.data_end, r.reserved)
+            base["data"] = rnd_bytes(rng, min(cap, rng.choice([17, 30, 41])))
+            base["data2"] = rnd_bytes(rng, min(cap, rng.choice([9, 26, 37])))
+            ref = _c16_session_reference(base, R)
+            if ref is None:
+                continue
+            log1 = ref["steps"][0]["log"]
+            writes = [i for i, (c, _r) in enumerate(log1) if c[:1] == b"\xA2"]
+            if not writes or ref["steps"][0]["outcome"][0] != "ret":
+                R.count("t2t_c16_recover_setup_skipped")
+                continue
+            R.max("t2t_c16_recover_writes_in_first_op", len(writes))
+            if quick and len(writes) > 10:
+                ps = sorted(set([writes[0], writes[1], writes[-1]] + [rng.choice(writes[2:-1]) for _ in range(3)]))
+            else:
+                ps = writes
+            fsets = []
+            for x, p in enumerate(ps):
+                # persistent: the WRITE never reaches the tag / is executed without the reader getting the acknowledge
+                for y, flavour in enumerate(("cmd_lost", "rsp_lost")):
+                    fsets.append([{"at": "cmd", "p": p, "b": 3 if (x + y) % 3 else 4, "err": errs[(x + y + si) % 3],
+                                   "flavour": flavour}])
+                if not quick:
+                    fsets.append([{"at": "cmd", "p": p, "b": 3, "err": rng.choice(errs), "flavour": rng.choice(["cmd_lost", "rsp_lost"])}])
+            # within the retry budget: the first operation succeeds, every later operation is comparable
+            fsets.append([{"at": "cmd", "p": rng.choice(writes), "b": rng.choice([1, 2]), "err": rng.choice(errs),
+                           "flavour": rng.choice(["cmd_lost", "rsp_lost"])}])
+            for faults in fsets:
+                _c16_session_run(dict(base, faults=faults), ref, R)
+
+
+ACK = b"\x0A"
+
+
+def _c16_resent_writes(steps):
+    """per step: the WRITE commands the tag answered (ACK or NAK) that are identical - page and data - to the last
+    WRITE of that page the tag ACKNOWLEDGED, with no other WRITE of the page sent in between (answered or not): 'a
+    command that was answered is sent again' (single sector tags)"""
+    last, out = {}, []
+    for stp in steps:
+        red = []
+        for cmd, rsp in stp["log"]:
+            if cmd[:1] != b"\xA2" or len(cmd) != 6:
+                continue
+            page, data = cmd[1], bytes(cmd[2:6])
+            if isinstance(rsp, str) or rsp is None:
+                # no answer: the reader cannot tell a lost command from a lost acknowledge, what it knows about the
+                # page is void until a WRITE of the page has been acknowledged again
+                last.pop(page, None)
+                continue
+            if last.get(page) == data:
+                red.append(page)
+            if rsp == ACK:
+                last[page] = data
+        out.append(red)
+    return out
+
+
+def _c16_session_resend(case, ref, run, R, fdesc):
+    """clause 'a command that was answered is not sent again' over the whole session of one tag object, differential
+    against the fault-free session (an application that asks for the same explicit WRITE twice gets it twice there as
+    well): no step sends more WRITE commands that repeat the last acknowledged WRITE of their page than the same
+    step of the fault-free session.  -> set of step indices with a verdict"""
+    if case["kind"] in C16_MULTI_SECTOR:
+        return set()
+    got, want = _c16_resent_writes(run["steps"]), _c16_resent_writes(ref["steps"])
+    bad = set()
+    hit_before = False
+    for i, (stp, g, w) in enumerate(zip(run["steps"], got, want)):
+        R.count("t2t_c16_session_write_resend_steps_checked")
+        later = hit_before and not stp["hits"]
+        hit_before = hit_before or bool(stp["hits"])
+        if len(g) > len(w):
+            bad.add(i)
+            naks = sum(1 for c, r in stp["log"] if c[:1] == b"\xA2" and isinstance(r, bytes) and r != ACK)
+            R.violation("t2t/c16/session/acknowledged-write-sent-again/%s/%s" % ("later-op" if later else "faulted-op", stp["op"]),
+                        "%s session %s, %s: step %d (%s) sent %d WRITE command(s) the tag had already acknowledged with the "
+                        "same data (page(s) %s; fault-free session: %d)%s; outcome of the step %r" % (
+                            case["kind"], "+".join(case["ops"]), fdesc, i, stp["op"], len(g), sorted(set(g)), len(w),
+                            ", %d WRITE(s) of the step answered with NAK" % naks if naks else "", stp["outcome"][:4]), case)
+    return bad
+
+
+def _c16_session_recovered(case, ref, run, R):
+    """class 'recovery' (observations + REQUIRED coverage): step 0 failed at a WRITE, step 1 (its repetition on a healthy
+    link) returned what the fault-free session returns and left the same tag memory; every later step then starts
+    from the same tag memory on a healthy link: its answered commands are compared with the fault-free step"""
+    steps, rsteps = run["steps"], ref["steps"]
+    s0 = steps[0]
+    if not s0["hits"]:
+        R.count("t2t_c16_recover_fault_not_reached")
+        return
+    hit = [(c, r) for c, r in s0["log"] if isinstance(r, str) and ("lost" in r)]
+    if s0["outcome"][0] == "exc" and s0["outcome"][1] == "TagCommandError" and hit and hit[0][0][:1] == b"\xA2":
+        R.count("t2t_c16_recover_first_op_failed_at_write")
+        R.count("t2t_c16_recover_first_op_" + s0["op"])
+        if hit[0][1].startswith("rsp_lost"):
+            R.count("t2t_c16_recover_unacknowledged_write_executed")
+    elif s0["outcome"][:4] == rsteps[0]["outcome"][:4]:
+        R.count("t2t_c16_recover_first_op_survived_burst")
+    if any(stp["hits"] for stp in steps[1:]):
+        return
+    ok = True
+    for i in range(1, len(steps)):
+        stp, rs = steps[i], rsteps[i]
+        same = stp["outcome"][:4] == rs["outcome"][:4] and stp["mem1"] == rs["mem1"]
+        if i == 1:
+            if same and stp["outcome"][0] == "ret":
+                R.count("t2t_c16_recover_repetition_returned_reference_result")
+            else:
+                R.count("t2t_c16_recover_repetition_differs")
+                R.seen("t2t_c16_recover_repetition_outcomes", "%s/%s: %r" % (case["kind"], stp["op"], stp["outcome"][:4]))
+                ok = False
+            continue
+        if not ok or stp["mem0"] != rs["mem0"]:
+            R.count("t2t_c16_recover_later_op_not_aligned")
+            continue
+        R.count("t2t_c16_recover_later_ops_judged")
+        R.count("t2t_c16_recover_later_op_" + stp["op"])
+        ans = [c for c, r in stp["log"] if not isinstance(r, str) and r is not None]
+        rans = [c for c, r in rs["log"] if not isinstance(r, str) and r is not None]
+        if ans == rans:
+            R.count("t2t_c16_recover_later_op_same_command_sequence")
+        else:
+            # more / other commands than the fault-free step are not by themselves 'an answered command sent again'
+            # (a reader may read again what it no longer trusts): observed; repeated WRITEs are judged by the caller
+            R.count("t2t_c16_recover_later_op_command_sequence_differs")
+            R.seen("t2t_c16_recover_sequence_differs", "%s/%s: %d commands, fault-free %d" % (
+                case["kind"], stp["op"], len(ans), len(rans)))
+        if not same:
+            R.count("t2t_c16_recover_later_op_result_or_memory_differs")
+            R.seen("t2t_c16_recover_later_op_outcomes", "%s/%s: %r (fault-free %r)" % (
+                case["kind"], stp["op"], stp["outcome"][:4], rs["outcome"][:4]))
+            ok = False
+
+
 def _c16_session_run(case, ref, R):
     """clauses of the statement that do not depend on how often a command is repeated, for EVERY operation of the
     session: (a) nothing but TagCommandError reaches the application, (b) an operation that returns normally returns
@@ -2619,6 +2889,10 @@ def _c16_session_run(case, ref, R):
         ("activation %d of the session fails (%s)" % (f["k"], f["how"])) if f["at"] == "sense" else
         ("%s x%d from command %d of the session (%s)" % (C16_KINDS[f["err"]][0], f["b"], f["p"], f["flavour"]))
         for f in faults)
+    _c16_session_resend(case, ref, run, R, fdesc)
+    if case.get("recover"):
+        R.count("t2t_c16_recover_cells")
+        _c16_session_recovered(case, ref, run, R)
     hit_before = False
     for i, (stp, rs) in enumerate(zip(run["steps"], ref["steps"])):
         op, out, rout = stp["op"], stp["outcome"], rs["outcome"]
